@@ -38,6 +38,14 @@ impl Monitor for C06 {
         let not_null = rng.chance(1, 3);
         let (mut case, t, mut sel, shape) = gen_base(rng, &BaseCfg { shapes: &[Shape::Plain, Shape::Distinct, Shape::Aggregate, Shape::Aggregate, Shape::Join, Shape::JoinAggregate], allow_limit: true, allow_having: true, agg_distinct: false, order_insensitive_only: false, exact_data: true, min_lines: 2, max_lines: 16, not_null_column: not_null });
         if !matches!(shape, Shape::Aggregate | Shape::JoinAggregate) && rng.chance(1, 3) { sel.limit = Some(rng.below(6) as u64); case["stmt"] = json!(sel.text(Paren::Full)); }
+        // regex flavour, sometimes: TEXT fields are optional non-empty groups, so that a line with every field present but
+        // empty matches the pattern and still obtains no value at all (not even an empty string)
+        let mut t = t;
+        if !t.json && rng.chance(1, 3) {
+            for p in t.spec.patterns.iter_mut() { p.regex = p.regex.replace("([^|]*)", "([^|]+)?"); }
+            let mut u = t.spec.clone(); u.name = "u".into();
+            case["tables"] = json!(format!("{} {}", t.spec.text(), u.text()));
+        }
         // the table of this case, as the generator built it (t may carry the NOT NULL modifier)
         case["spec"] = t.spec.to_json();
         let n = case["lines"].as_array().map(|a| a.len()).unwrap_or(0);
@@ -60,7 +68,8 @@ impl Monitor for C06 {
                     }
                 }
             } else {
-                match rng.below(7) {
+                match rng.below(9) {
+                    7 | 8 => (t.schema.cols.iter().map(|(n, ty)| if matches!(ty, crate::val::Ty::Arr(_)) { format!("{}=,,", n) } else { format!("{}=", n) }).collect::<Vec<_>>().join("|"), J::Null),
                     0 => (String::new(), J::Null), 1 => ("garbage".into(), J::Null), 2 => ("k=a|g=1".into(), J::Null), 3 => (" k=a".into(), J::Null),
                     4 => { let base = strs(&case, "lines"); let l = base.get(rng.below(base.len().max(1))).cloned().unwrap_or_default(); (format!("{}|extra", l), J::Null) }
                     5 => { let base = strs(&case, "lines"); let l = base.get(rng.below(base.len().max(1))).cloned().unwrap_or_default(); (l.replacen('=', ":", 1), J::Null) }
